@@ -45,7 +45,7 @@ func runC08(c *Ctx) {
 		}
 	}
 	confine(setVal, map[string]bool{"(core/state.StateDB).getValidator": true, "(core/state.StateDB).CreateValidator": true, "(core/state.StateDB).UpdateValidator": true, "(core/state.validatorDeleteChange).revert": true, "(core/state.validatorUpdateChange).revert": true})
-	statCallers := map[string]bool{"(core/state.StateDB).UpdateValidator": true, "(core/state.StateDB).CreateValidator": true, "(core/state.StateDB).RemoveValidator": true, "(core/state.StateDB).deleteValidator": true, "(core/state.validatorUpdateChange).revert": true, "(core/state.validatorCreateChange).revert": true}
+	statCallers := map[string]bool{"(core/state.StateDB).UpdateValidator": true, "(core/state.StateDB).CreateValidator": true, "(core/state.StateDB).RemoveValidator": true, "(core/state.StateDB).deleteValidator": true, "(core/state.validatorUpdateChange).revert": true, "(core/state.validatorCreateChange).revert": true, "(core/state.validatorDeleteChange).revert": true}
 	confine(incr, statCallers)
 	confine(decr, statCallers)
 	// AddVal / SubVal only from incr/decr
